@@ -4,6 +4,7 @@ import (
 	"fmt"
 	"math/big"
 	"math/rand"
+	"verif/gen"
 
 	pb "github.com/xuperchain/xupercore/bcs/ledger/xledger/xldgpb"
 	"github.com/xuperchain/xupercore/protos"
@@ -14,7 +15,7 @@ import (
 // HostileClasses lists the malformed-transaction families (each is derived from an honest,
 // currently valid transfer and re-signed, so only the ledger rules can object).
 var HostileClasses = []string{"dup-input", "cite-more", "cite-less", "out-more", "out-less", "coinbase-flag", "missing-input",
-	"wrong-owner", "marked-out-more", "frozen-input", "same-input-two-txs", "stale-key", "leading-zero-out", "coinbase-with-inputs"}
+	"wrong-owner", "marked-out-more", "frozen-input", "same-input-two-txs", "stale-key", "leading-zero-out", "coinbase-with-inputs", "stale-key+transfer"}
 
 // Hostile derives a hostile variant of class cl from the SUT's current state. It returns
 // nil when the state offers no material for that class.
@@ -156,6 +157,27 @@ func (s *SUT) Hostile(rng *rand.Rand, cl string) []*pb.Transaction {
 		x1 := mk(ins, []sn.Out{{To: to, Amount: total}}, nil)
 		x2 := mk(ins, []sn.Out{{To: sn.K(rng.Intn(6)).Address, Amount: total}}, nil)
 		return []*pb.Transaction{x1, x2}
+	case "stale-key+transfer":
+		// a token transfer that also calls a contract; its read set is current when it is assembled
+		// and superseded by a pool transaction admitted before it is submitted: the token part is
+		// fine, the key part is stale
+		b := gen.Buckets[rng.Intn(len(gen.Buckets))]
+		k := []byte(gen.KeyNames[rng.Intn(len(gen.KeyNames))])
+		p := (&sn.ProgBuilder{}).Get(b, k).Put(b, k, []byte(fmt.Sprintf("st%d", s.hn)))
+		res, err := a.PreExec([]*protos.InvokeRequest{sn.VerifReq(sn.VerifContract, p.String())}, from.Address, []string{from.Address})
+		if err != nil {
+			return nil
+		}
+		x, err := sn.BuildTx(sn.TxSpec{Initiator: from.Address, Signers: []*sn.Key{from}, Inputs: ins, Outputs: []sn.Out{{To: to, Amount: total}},
+			InExt: res.Inputs, OutExt: res.Outputs, Requests: res.Requests, Nonce: fmt.Sprintf("hs%d-%d", s.hn, rng.Intn(1<<30)), Timestamp: int64(5000 + s.hn)})
+		if err != nil {
+			return nil
+		}
+		w := s.kvTx(rng, (&sn.ProgBuilder{}).Put(b, k, []byte(fmt.Sprintf("sw%d", s.hn))))
+		if w == nil || s.SubmitTx(w) != "ok" {
+			return nil
+		}
+		return []*pb.Transaction{x}
 	case "leading-zero-out":
 		raw := append([]byte{0, 0}, total.Bytes()...)
 		return []*pb.Transaction{mk(ins, []sn.Out{{To: to, Raw: raw}}, nil)}
